@@ -5,7 +5,7 @@ import VgiVerif.Model.C31Url
 /-
 C31 model: the bookkeeping of `vgi_rpc/external_fetch.py`
   `_request_following_redirects`, `_head_probe`, `_range_probe`, `_content_length_from_content_range`,
-  `_read_response_body`, `_read_range_response_body`, `_compute_ranges`, `_fetch_one_chunk`,
+  `_read_response_body`, `_read_range_response_body`, `_compute_ranges`, `_content_range_mismatch`, `_fetch_one_chunk`,
   `_fetch_chunks_with_hedging` (as a serial schedule of chunk attempts), `_fetch_with_probe`, `fetch_url` (one retry)
 over the *extracted* constants and comparison shapes (`Gen.Fetch`).
 
